@@ -17,7 +17,7 @@ RULE = ("legacy databases built by the real PeeweeStorage at its default path in
         "buckets (unicode ids, look-alike ids that differ only in letter case / wildcards / blanks / composition, data dicts, with/without name, explicit creation instants), 0-300 events each "
         "(generated instants/durations/JSON data, some events recorded two or three times identically; ids overlap across buckets; 100-row chunk boundaries crossed) and a few "
         "per cent with 999-5000 time-clustered, overlapping events (page / batch boundaries of any size up to 5000), in "
-        "the normal and the testing profile, sometimes with the OTHER profile's legacy file present too; then "
+        "the normal and the testing profile, sometimes with the OTHER profile's legacy file present too (the same process then creates that profile's store as well and it is compared with its own legacy content); then "
         "SqliteStorage is created at its default location, which triggers the migration (in half of the cases its connection is then closed without any other call and the store is opened afresh, as after a start-and-stop of the server); bucket sets, metadata and "
         "per-bucket event multisets are compared and the legacy file is hashed before and after; evaluations = "
         "migrations; non-trivial = at least one bucket with events; signature = (profile, bucket-count class, "
@@ -136,9 +136,14 @@ def run_case(case, ctx):
         data_dir = dirs.get_data_dir("aw-server")
         if not os.path.realpath(data_dir).startswith(os.path.realpath(root)):
             raise RuntimeError(f"data dir {data_dir} escaped the private root {root}")
+        legacy_other = None
         if case["other_profile"]:
-            _build_legacy(not testing, [dict(id="other-profile-bucket", type="t", client="c", hostname="h",
-                                             events=[dict(ts=10**15, dur=1000, data={"uid": -1})])])
+            # the other profile has a legacy file of its own; one of its buckets has the id of a bucket of this profile
+            shared = case["buckets"][0]["id"] if case["buckets"] else "other-profile-bucket"
+            legacy_other = _build_legacy(not testing, [
+                dict(id="other-profile-bucket", type="t", client="c", hostname="h", events=[dict(ts=10**15, dur=1000, data={"uid": -1})]),
+                dict(id=shared, type="t-other", client="c-other", hostname="h-other",
+                     events=[dict(ts=10**15 + i * 10**6, dur=500, data={"uid": -2 - i}) for i in range(3)])][: 2 if shared != "other-profile-bucket" else 1])
         legacy = _build_legacy(testing, case["buckets"])
         lpath = os.path.join(data_dir, "peewee-sqlite" + ("-testing" if testing else "") + ".v2.db")
         if not os.path.isfile(lpath):
@@ -187,6 +192,28 @@ def run_case(case, ctx):
                                         f"legacy_events_carried_ids={had_ids} e.g. {list((evs - got).elements())[:1]!r:.300}"))
         finally:
             sq.conn.close()
+        if legacy_other is not None and not viols:
+            # the same process now creates the default store of the OTHER profile as well: it must get that profile's own
+            # legacy content, not this one's
+            try:
+                sq2 = SqliteStorage(testing=not testing)
+            except Exception as ex:  # noqa: BLE001
+                return [("migration-of-the-other-profile-raised", f"{type(ex).__name__}: {ex}")], dict(sig=("raised",), nontrivial=True)
+            try:
+                new2 = sq2.buckets()
+                if set(new2) != set(legacy_other):
+                    viols.append(("other-profile:bucket-set-differs", f"legacy={sorted(legacy_other)} new={sorted(new2)}"))
+                for bid, (md, evs, _had) in legacy_other.items():
+                    if bid not in new2:
+                        continue
+                    if any(new2[bid].get(f) != md.get(f) for f in ("type", "client", "hostname")):
+                        viols.append(("other-profile:bucket-metadata-differs", f"bucket={bid!r} legacy={md!r:.200} new={new2[bid]!r:.200}"))
+                    got = Counter((dt_us(e.timestamp), td_us(e.duration), canon(e.data)) for e in sq2.get_events(bid, -1))
+                    if got != evs:
+                        viols.append(("other-profile:events-differ", f"bucket={bid!r} legacy={sum(evs.values())} new={sum(got.values())}"))
+                ctx.count("both_profiles_migrated_in_one_process")
+            finally:
+                sq2.conn.close()
         if _sha(lpath) != h0:
             viols.append(("legacy-file-modified", os.path.basename(lpath)))
     finally:
